@@ -177,6 +177,17 @@ def n_rules(prog, env, W, R, prefix, tag):
                 "bincode::deserialize(..).%s(..): bytes from the network or the shared store are decoded with a panic on "
                 "failure" % (par.get("name", par["k"]) if par else "?"))
 
+    # N2b: network/store bytes are decoded with the slice reader (bincode::deserialize), which bounds every length prefix by the
+    # remaining input; the io::Read based entry points pre-allocate attacker-chosen lengths (process abort on allocation failure)
+    bad_des = prog.call_sites(lambda p, i: p.startswith("bincode::") and ("deserialize_from" in p or "deserialize_in_place" in p))
+    bad_des = [(f, n) for f, n in bad_des if not f.derived]
+    for (f, n), i in ordinal_keys(bad_des, lambda x: x[0].path):
+        R.fail(prefix + ".N2", key(f, "decoding uses the bounded slice reader" + tag, i), n["sp"],
+               "%s decodes with %s: a length prefix of 2^62 makes bincode's IoReader allocate that much before reading (abort), "
+               "use bincode::deserialize(&[u8])" % (f.path, n["fn"]))
+    if not bad_des:
+        R.ok(prefix + ".N2", "decoding uses the bounded slice reader" + tag, "", "no bincode::deserialize_from / deserialize_in_place call")
+
     # ---------------- N3 cross-component keys: store reads under network-supplied digests
     helper_chans = [c for c in W.channels.values() if c.kind == "mpsc" and "Digest" in (c.elem_ty or "")
                     and "PublicKey" in (c.elem_ty or "")]
